@@ -77,3 +77,20 @@ Print Assumptions C20_read_pda_label_sound.
 Theorem C20_read_fst_label_sound : forall l a b : str, read_fst_label l = Some (a, b) -> l = fst_label a b.
 Proof. exact read_fst_label_sound. Qed.
 Print Assumptions C20_read_fst_label_sound.
+
+(* the premises reduced to the fields alone: non-empty texts free of both separators whose first and last characters are not
+   separator characters (json texts of strings, non-negative numbers and lists) are read back exactly *)
+From PFL Require Import Proofs.GraphLabelsSuff.
+Theorem C20_pda_label_roundtrip_fields : forall (a0 : str) (ea : N) (b0 : str) (eb : N) (c : str),
+  ~ In ea sep_chars -> ~ In eb sep_chars -> head_not_in sep_chars (b0 ++ eb :: nil) -> head_not_in sep_chars c ->
+  occ sep_arrow (a0 ++ ea :: nil) = 0 -> occ sep_arrow (b0 ++ eb :: nil) = 0 -> occ sep_arrow c = 0 ->
+  occ sep_slash (b0 ++ eb :: nil) = 0 -> occ sep_slash c = 0 ->
+  read_pda_label (pda_label (a0 ++ ea :: nil) (b0 ++ eb :: nil) c) = Some (a0 ++ ea :: nil, b0 ++ eb :: nil, c).
+Proof. exact pda_label_roundtrip_fields. Qed.
+Print Assumptions C20_pda_label_roundtrip_fields.
+
+Theorem C20_fst_label_roundtrip_fields : forall (a0 : str) (ea : N) (b : str),
+  ~ In ea sep_chars -> head_not_in sep_chars b -> occ sep_arrow (a0 ++ ea :: nil) = 0 -> occ sep_arrow b = 0 ->
+  read_fst_label (fst_label (a0 ++ ea :: nil) b) = Some (a0 ++ ea :: nil, b).
+Proof. exact fst_label_roundtrip_fields. Qed.
+Print Assumptions C20_fst_label_roundtrip_fields.
